@@ -309,6 +309,22 @@ pub fn run(ctx: &mut Ctx) {
 }
 
 pub fn replay(ctx: &mut Ctx, v: &Value) {
+    if v.get("kind").and_then(|k| k.as_str()) == Some("fragments") {
+        use crate::e2::{Batch, Opts};
+        let mut b = Batch::new("c02-fragments-replay", Opts { feature_unimock: false, members: 1, ..Default::default() });
+        b.add("c00000", super::s(v, "src"));
+        let out = b.build_and_run();
+        b.cleanup();
+        ctx.count_eval();
+        if out.compile_failed.values().next().is_some() {
+            ctx.violation("replayed program with `macro_rules!` fragments does not compile", v);
+        } else if let Some((st, msg)) = out.ran.get("c00000") {
+            if st != "ok" {
+                ctx.violation(&format!("bodies with `macro_rules!` fragments do not behave as written: {msg}"), v);
+            }
+        }
+        return;
+    }
     let (mode, m, a, i) = (super::s(v, "mode"), super::s(v, "macro"), super::s(v, "attr"), super::s(v, "item"));
     ctx.count_eval();
     match check(&mode, &m, &a, &i) {
@@ -335,8 +351,64 @@ fn record_mode(input: &[Tok]) -> Option<&'static str> {
     None
 }
 
+/// Bodies that carry `macro_rules!` fragments (`$e:expr`, `$b:block`) at their top level: passed through as opaque token trees
+/// they keep the fragments' grouping (`$e * x` with `$e = 1 + 1` is `(1 + 1) * x`); re-collected token by token they lose it.
+/// No token comparison sees that (invisible delimiters do not print), only behaviour does.
+pub fn fragment_src() -> String {
+    let mut s = String::from("#![allow(warnings)]\nuse crate::rt;\n");
+    s.push_str(
+        "macro_rules! mk {\n    ($e:expr, $b:block) => {\n        #[::entrait::entrait(pub TheTrait)]\n        pub mod m {\n            pub fn f(_d: &impl Sized, x: u32) -> u32 { $e * x }\n            pub fn g(_d: &impl Sized, x: u32) -> u32 { let y = $e * x; y }\n            fn private(x: u32) -> u32 { $e * x }\n            pub fn h(_d: &impl Sized, x: u32) -> u32 { private(x) }\n            pub fn blk(_d: &impl Sized) -> u32 $b\n            pub mod inner { pub fn k(x: u32) -> u32 { $e * x } }\n            pub struct Z;\n            impl Z { pub fn z(x: u32) -> u32 { $e * x } }\n        }\n        pub struct X;\n        #[::entrait::entrait(XImpl, delegate_by = DelegateX)]\n        pub trait XT { fn xf(&self, x: u32) -> u32; }\n        #[::entrait::entrait]\n        impl XImpl for X { pub fn xf(_d: &impl Sized, x: u32) -> u32 { $e * x } }\n    };\n}\nmk!(1 + 1, { 40 + 2 });\npub struct App;\nimpl DelegateX<App> for App { type Target = X; }\n",
+    );
+    s.push_str("pub fn run() -> Vec<String> {\n    let mut fails: Vec<String> = vec![];\n    let app = ::entrait::Impl::new(App);\n");
+    for (what, expr, want) in [
+        ("module fn called directly", "m::f(&app, 2)", 4),
+        ("module fn through the trait", "TheTrait::f(&app, 2)", 4),
+        ("module fn with the fragment in a `let`", "TheTrait::g(&app, 2)", 4),
+        ("private fn of the module", "TheTrait::h(&app, 2)", 4),
+        ("module fn whose body is a `$b:block` fragment", "TheTrait::blk(&app)", 42),
+        ("fn of a nested module", "m::inner::k(2)", 4),
+        ("fn of an impl block inside the module", "m::Z::z(2)", 4),
+        ("fn of an entraited impl block", "XT::xf(&app, 2)", 4),
+    ] {
+        s.push_str(&format!("    rt::expect_eq(&mut fails, \"{what}: `$e * x` with `$e = 1 + 1`, x = 2 (a `$b:block` body: 40 + 2)\", &({expr}), &{want}u32);\n"));
+    }
+    s.push_str("    fails\n}\n");
+    s
+}
+
+fn fragment_leg(ctx: &mut Ctx) -> bool {
+    use crate::e2::{Batch, Opts};
+    let src = fragment_src();
+    let mut b = Batch::new("c02-fragments", Opts { feature_unimock: false, members: 1, ..Default::default() });
+    b.add("c00000", src.clone());
+    let out = b.build_and_run();
+    b.cleanup();
+    ctx.count_eval();
+    if let Some(d) = out.compile_failed.values().next() {
+        ctx.violation(
+            &format!("items assembled from `macro_rules!` fragments do not compile after expansion: {}", d.first().map(|x| format!("{} {}", x.code, x.message)).unwrap_or_default()),
+            &json!({"engine": "E2", "kind": "fragments", "src": src}),
+        );
+        return false;
+    }
+    match out.ran.get("c00000") {
+        Some((st, msg)) if st != "ok" => {
+            ctx.violation(&format!("bodies with `macro_rules!` fragments do not behave as written: {msg}"), &json!({"engine": "E2", "kind": "fragments", "src": src}));
+            false
+        }
+        Some(_) => {
+            ctx.class("e2:bodies_with_macro_rules_fragments");
+            true
+        }
+        None => crate::ev::inconclusive("c02-fragments: the program produced no result"),
+    }
+}
+
 pub fn e2_leg(ctx: &mut Ctx) -> bool {
     use crate::e2::{Batch, Opts};
+    if !fragment_leg(ctx) {
+        return false;
+    }
     let n = ctx.n(250, 3000) as usize;
     let mut batch = Batch::new("c02-e2", Opts { feature_unimock: false, members: 16, check_only: true, ..Default::default() });
     for (i, tp) in crate::drive::gen_tapes(ctx.seed, 201, n, super::c01::TAPE_LEN).iter().enumerate() {
